@@ -4,6 +4,8 @@
   Strings are sent as '.'-joined decimal code points ("-" = empty string).
 -/
 import HSModel.Spec
+import HSModel.Config
+import HSModel.Cli
 open HS
 
 def decStr (s : String) : Option Str :=
@@ -162,6 +164,60 @@ def showEff (cfg : Config) : Eff → String
   | .rewriteCid c _ => s!"rewrite {showLoc cfg (.cidRef c)}"
   | .truncateCid c _ => s!"truncate {showLoc cfg (.cidRef c)}"
 
+def decOptInt (s : String) : Option (Option Int) :=
+  if s == "X" then some none else s.toInt?.map some
+
+def decPropVal (s : String) : Option PropVal :=
+  if s == "M" then some .missing else if s == "N" then some .none
+  else match s.splitOn ":" with
+    | ["I", i] => i.toInt?.map .int
+    | ["S", x, a] => do pure (.str (← decStr x) (← decOptInt a))
+    | ["O", a] => (decOptInt a).map .other
+    | _ => none
+
+def decExisting (s : String) : Option Existing :=
+  match s.splitOn ":" with
+  | ["Y", d, w, a, n] => do pure (.yaml (← d.toInt?) (← w.toInt?) (← decStr a) (← decStr n))
+  | ["N", r, dd] => some (.noYaml (r == "1") (dd == "1"))
+  | _ => none
+
+def showPropVal : PropVal → String
+  | .missing => "M" | .none => "N" | .int i => s!"I:{i}"
+  | .str s _ => "S:" ++ encStr s | .other _ => "O"
+
+def showOpen : OpenResult → String
+  | .refused e => "err " ++ e.name
+  | .opened => "ok opened"
+  | .created d w a n => s!"ok created {d} {w} {strOf a} {showPropVal n}"
+
+def encSArg : SArg → String
+  | .none => "N" | .other => "O" | .str s => "S:" ++ encStr s
+def encIArg : IArg → String
+  | .none => "N" | .other => "O" | .int i => s!"I:{i}"
+def encData : DataArg → String
+  | .bad => "B" | .blankStr => "K" | .noFile => "F" | .ok t => s!"T:{t}"
+
+def encCall : Call → String
+  | .storeObject p d a c ca s => s!"store_object {encSArg p} {encData d} {encSArg a} {encSArg c} {encSArg ca} {encIArg s}"
+  | .tagObject p c => s!"tag_object {encSArg p} {encSArg c}"
+  | .deleteIfInvalid _ c ca s => s!"delete_if_invalid_object ? {encSArg c} {encSArg ca} {encIArg s}"
+  | .storeMetadata p d f => s!"store_metadata {encSArg p} {encData d} {encSArg f}"
+  | .retrieveObject p => s!"retrieve_object {encSArg p}"
+  | .retrieveMetadata p f => s!"retrieve_metadata {encSArg p} {encSArg f}"
+  | .deleteObject p => s!"delete_object {encSArg p}"
+  | .deleteMetadata p f => s!"delete_metadata {encSArg p} {encSArg f}"
+  | .getHexDigest p a => s!"get_hex_digest {encSArg p} {encSArg a}"
+
+def decOptStr (s : String) : Option (Option Str) :=
+  if s == "N" then some none
+  else if s.startsWith "S:" then (decStr (s.drop 2).toString).map some else none
+
+def decVerb : String → Option Verb
+  | "getchecksum" => some .getchecksum | "storeobject" => some .storeobject
+  | "storemetadata" => some .storemetadata | "retrieveobject" => some .retrieveobject
+  | "retrievemetadata" => some .retrievemetadata | "deleteobject" => some .deleteobject
+  | "deletemetadata" => some .deletemetadata | _ => none
+
 def handle (st : DState) (line : String) : DState × List String :=
   let ws := (line.trimAscii.toString.splitOn " ").filter (· ≠ "")
   match ws with
@@ -211,6 +267,27 @@ def handle (st : DState) (line : String) : DState × List String :=
     | some c =>
       let (res, a') := Abs.step st.cfg st.tabs.oracle st.a c
       ({ st with a := a' }, [showResult st.cfg res])
+  | ["open", ex, pa, de, wi, al, ns] =>
+    match decExisting ex, decPropVal pa, decPropVal de, decPropVal wi, decPropVal al, decPropVal ns with
+    | some ex, some pa, some de, some wi, some al, some ns =>
+      (st, [showOpen (openStore ex { path := pa, depth := de, width := wi, alg := al, ns := ns })])
+    | _, _, _, _, _, _ => (st, ["bad-op"])
+  | ["dispatch", df, vs, pid, path, algo, cks, ca, sz, fmt] =>
+    let verbs := if vs == "-" then some [] else (vs.splitOn ",").mapM decVerb
+    let pathD : Option (Option DataArg) := if path == "N" then some none else (decData path).map some
+    match decStr df, verbs, decOptStr pid, pathD, decOptStr algo, decOptStr cks, decOptStr ca, decOptStr sz, decOptStr fmt with
+    | some df, some verbs, some pid, some pathD, some algo, some cks, some ca, some sz, some fmt =>
+      let o : CliOpts := { verbs := verbs, pid := pid, path := pathD, algo := algo, checksum := cks,
+                           checksumAlgo := ca, objSize := sz, formatid := fmt }
+      (st, [match dispatch df o with
+        | .error e => "err " ++ e.name
+        | .ok none => "none"
+        | .ok (some c) => "call " ++ encCall c])
+    | _, _, _, _, _, _, _, _, _ => (st, ["bad-op"])
+  | ["pyint", x] =>
+    match decStr x with
+    | some x => (st, [match pyIntStr x with | some i => s!"{i}" | none => "X"])
+    | none => (st, ["bad-op"])
   | ["shard", d, w, x] =>
     match d.toNat?, w.toNat?, decStr x with
     | some d, some w, some x => (st, ["shard " ++ "/".intercalate ((shardPy d w x).map strOf)])
